@@ -68,9 +68,10 @@ type Ext struct {
 }
 
 type ExtVar struct {
-	Name string
-	Type TypeID
-	H    uint32
+	Name   string
+	Type   TypeID
+	H      uint32
+	Holder bool `json:",omitempty"` // the variable is a struct with one field V of the type: the operand is pkg.Name.V
 }
 
 type Prov struct {
@@ -81,6 +82,7 @@ type Prov struct {
 	Params   []TypeID // CtxType allowed
 	Results  []TypeID
 	Err      bool `json:",omitempty"`
+	ErrAlias bool `json:",omitempty"` // the error result is spelled Failure (type Failure = error)
 	Variadic bool `json:",omitempty"` // last parameter is ...Elem(of slice type in Params)
 	Method   bool `json:",omitempty"` // Form ext: referenced as a method value of a package-level variable (pkg.Factory.Name)
 }
@@ -125,6 +127,8 @@ type Case struct {
 	Provs    []Prov
 	Files    []File
 	PkgNames []string `json:",omitempty"` // extra package-level identifiers declared in the user package
+	NamesGenerated bool `json:",omitempty"` // names.go carries another tool's "Code generated ... DO NOT EDIT." header
+	PkgFuncs []string `json:",omitempty"` // extra package-level functions (func X() int) that no declaration refers to
 	Features []string `json:",omitempty"`
 	KAlias   string   `json:",omitempty"` // alias for the kessoku import
 }
